@@ -96,7 +96,7 @@ theorem C03_strong_step_groupB (env : Env) (s : State) (op : Op) (hc : CoveredB 
   strong_step_B env s op hc h hh
 
 /-- and it holds initially -/
-theorem C03_strong_init : Strong Memfs.init := by decide
+theorem C03_strong_init_groupB : Strong Memfs.init := by decide
 
 /-- non-vacuity: a non-trivial state in the domain on which `moveP` (directory into directory) succeeds -/
 def wGood : State :=
